@@ -2,6 +2,7 @@
 
 from __future__ import annotations
 
+import copy
 import inspect
 import itertools
 import os
@@ -396,7 +397,12 @@ def pytask_collect_task(
             attributes=attributes,
         )
     if isinstance(obj, PTask):
-        return obj
+        # A task object can be handed to several builds. Work on a copy with its own
+        # list of marks: marks attached to the task while it is executed (skipped,
+        # deselected, would be executed) must not end up on the user's object.
+        task = copy.copy(obj)
+        task.markers = list(obj.markers)
+        return task
     return None
 
 
